@@ -26,7 +26,7 @@ from mitmproxy.proxy import layer
 from mitmproxy.proxy.layers import tcp as ltcp
 
 import vmc.drivers.world as wm
-from vmc import explore
+from vmc.drivers import mbfs
 from vmc.drivers.world import World
 from vmc.tally import HarnessError, Tally
 
@@ -78,30 +78,18 @@ def _policy(name, data, world):
         data.intercept()  # what the Intercept addon does
 
 
-def _make_suspend(cc):
-    def suspend(name, data, world):
-        if name == "tcp_message":
-            return not data.metadata.get("icpt")
-        if name == "server_connected":
-            return True
-        if name == "client_connected":
-            return cc
-        return False
-
-    return suspend
-
-
 class Sys:
-    def __init__(self, cc):
-        self.cc = cc
+    def __init__(self):
+        self.cc = None  # variant: is the client_connected hook held? chosen by the first action
         self.hist = ()
-        self.w = World(mode="reverse:tcp://10.0.0.1:80", opts={"tcp_timeout": TIMEOUT}, layer_factory=lambda ctx: ScriptLayer(ctx),
-                       policy=_policy, suspend=_make_suspend(cc))
+        self.w = World(mode="reverse:tcp://10.0.0.1:80", layer_factory=lambda ctx: ScriptLayer(ctx),
+                       policy=_policy, suspend=self._suspend)
         w = self.w
         self.t0 = w.loop.time()
         self.callbacks = []  # times at which the watchdog invoked its callback
         self.callback_raised = False
         wd = w.handler.timeout_watchdog
+        wd.timeout = TIMEOUT  # what ConnectionHandler.__init__ reads from options.tcp_timeout (Options.update costs 1 ms per state)
         orig = wd.callback
 
         async def cb():
@@ -124,9 +112,15 @@ class Sys:
         self.opens = 0
         self.moved = False
         self.judged_close = False
-        w.start()
-        if cc:
-            self._adopt("client_connected")
+
+    def _suspend(self, name, data, world):
+        if name == "tcp_message":
+            return not data.metadata.get("icpt")
+        if name == "server_connected":
+            return True
+        if name == "client_connected":
+            return bool(self.cc)
+        return False
 
     # ---------------------------------------------------------------- helpers
     @property
@@ -175,11 +169,13 @@ class Sys:
 
     # ---------------------------------------------------------------- actions
     def actions(self):
+        if self.cc is None:
+            return [["start", False], ["start", True]]
         if self.closed_at is not None:
             return []
         w = self.w
         acts = []
-        started = self.w.task is not None and not (self.cc and any(p[0] == "client_connected" for p in self.pending))
+        started = not any(p[0] == "client_connected" for p in self.pending)
         if started:
             acts.append(["act"])
             if len(self.pending) < MAX_PENDING and self.starts < MAX_STARTS:
@@ -202,7 +198,13 @@ class Sys:
         before = [list(p) for p in self.pending]
         kind = a[0]
         self.hist = self.hist + (tuple(a),)
-        if kind == "adv":
+        if kind == "start":
+            self.cc = bool(a[1])
+            self.t0 = self.last_act = self.last_any = self.now
+            w.start()
+            if self.cc:
+                self._adopt("client_connected")
+        elif kind == "adv":
             t_before = self.now
             nt = w.loop.next_timer()
             if a[1] == "1":
@@ -267,10 +269,12 @@ class Sys:
         return f
 
     def case(self):
-        return {"cc": self.cc, "hist": [list(a) for a in self.hist]}
+        return {"hist": [list(a) for a in self.hist]}
 
     def check(self, t: Tally):
         """step clauses, evaluated in every state"""
+        if self.cc is None:
+            return
         case = self.case()
         if self.closed_at is not None and not self.judged_close:
             self.judged_close = True
@@ -292,20 +296,30 @@ class Sys:
         now = self.now
         wd = w.handler.timeout_watchdog
         nt = w.loop.next_timer()
+        def age(x):
+            # ages only matter up to the timeout: every comparison in the watchdog and in the oracle is against it
+            if x is None:
+                return None
+            d = round(now - x, 6)
+            return d if d <= TIMEOUT else "gt"
+
         return {
             "cc": self.cc,
-            "blocker": wd.blocker, "can": wd.can_timeout.is_set(), "la": round(now - wd.last_activity, 6),
+            "blocker": wd.blocker, "can": wd.can_timeout.is_set(), "la": age(wd.last_activity),
             "timer": None if nt is None else round(nt - now, 6),
-            "pending": [[p[0], round(now - p[1], 6), min(p[2], 2)] for p in self.pending],
-            "ref": [round(now - self.last_act, 6), round(now - self.last_any, 6), None if self.last_done is None else round(now - self.last_done, 6)],
+            # the age of a pending hook is only reported, never compared
+            "pending": [[p[0], min(p[2], 2)] for p in self.pending],
+            "ref": [age(self.last_act), age(self.last_any), age(self.last_done)],
             "closed": self.closed_at is not None, "connects": len(w.pending_connects()), "opens": self.opens, "starts": self.starts,
-            "callbacks": len(self.callbacks), "raised": self.callback_raised, "moved": self.moved,
+            "callbacks": len(self.callbacks), "raised": self.callback_raised,
             "servers": [e.state for e in w.servers],
         }
 
     def final(self, t: Tally):
         """close-out: complete everything that is pending, then let time pass; the connection must get closed"""
         w = self.w
+        if self.cc is None:
+            return
         if self.closed_at is None:
             while self.pending:
                 self.apply(["fin", 0])
@@ -339,57 +353,32 @@ def _dispose_all(keep=None):
 
 
 class Spec:
-    def __init__(self, cc):
-        self.cc = cc
+    """a state is its action history; the variant (client_connected held or not) is the first action"""
 
-    def build(self):
-        _dispose_all()
-        s = Sys(self.cc)
+    def replay(self, hist):
+        _dispose_all()  # one World at a time: the process-wide Master/Probe points at the newest World
+        s = Sys()
         _LIVE.append(s)
+        for a in hist:
+            s.apply(a)
         return s
-
-    def clone(self, s):
-        _dispose_all(keep=s)
-        n = Sys(self.cc)
-        _LIVE.append(n)
-        for a in s.hist:
-            n.apply(a)
-        return n
-
-    def actions(self, s):
-        return s.actions()
-
-    def apply(self, s, a):
-        s.apply(a)
-
-    def fingerprint(self, s):
-        return s.fingerprint()
-
-    def check(self, s, hist, t):
-        s.check(t)
-
-    def final(self, s, hist, t):
-        s.final(t)
 
 
 def run(ctx):
-    depth = ctx.pick(7, 9)
+    depth = ctx.pick(6, 8)
     ctx.bounds = {
-        "timeout_s": TIMEOUT, "epsilon_s": EPS, "depth": depth,
+        "timeout_s": TIMEOUT, "epsilon_s": EPS, "depth": "%d actions after the variant choice" % depth,
         "actions": ["act", "ev_hook", "ev_icpt", "open", "conn_ok", "fin j", "adv exact", "adv eps", "adv 1"],
         "max_pending_hooks": MAX_PENDING, "max_hook_starts": MAX_STARTS, "max_opens": MAX_OPENS,
         "variants": ["client_connected instant", "client_connected held"],
     }
-    for cc in (False, True):
-        n, capped = explore.bfs(Spec(cc), depth if not cc else depth - 1, ctx.tally, log=ctx.log, max_states=ctx.pick(400000, 3000000))
-        if capped:
-            ctx.cap("state cap reached (cc=%s)" % cc)
+    mbfs.bfs_once(Spec(), depth + 1, ctx.tally, log=ctx.log)
     _dispose_all()
 
 
 def replay(case, t, verbose=False):
-    spec = Spec(bool(case["cc"]))
-    s = spec.build()
+    spec = Spec()
+    s = spec.replay(())
     try:
         s.check(t)
         for a in case["hist"]:
